@@ -553,7 +553,14 @@ def floors(m, tier):
         out.append("pretty order checked fewer than 200 times")
     if c.get("construction_refused", 0) > 0.3 * sum(v for k, v in c.items() if k.startswith("cases:")):
         out.append("more than 30% of generated objects could not be constructed")
-    return out
+    # every kind of case the custom workload means to form has been formed (a selector that never fires is a hole nobody sees:
+    # the mixed-version bundle branch was dead for five rounds)
+    for name, need in (("mixed_or_custom_member_bundles", 8), ("bundles_with_library_object_members", 4), ("custom_objects_toplevel", 4), ("custom_objects_both-ways", 8),
+                       ("extension_entries_as_instances", 2), ("custom_properties_given_both_ways", 4), ("marking_definitions_given_as_objects", 3),
+                       ("nested_custom_properties", 50), ("constructed_with_clock_defaults", 20)):
+        if c.get(name, 0) < need:
+            out.append("case kind '%s' formed %d times (at least %d intended)" % (name, c.get(name, 0), need))
+    return out[:6]
 
 
 MANIFEST = {
